@@ -72,6 +72,8 @@ func runC15Lookups(c *Ctx) {
 			// whatever CASEMAPPING the server announces, the client's name-keyed queries are RFC1459 case-insensitive
 			{Op: "recv", Arg: ":srv 005 me " + []string{"CASEMAPPING=ascii", "CASEMAPPING=rfc1459", "CASEMAPPING=strict-rfc1459", "NETWORK=x", "CASEMAPPING=ascii CHANTYPES=#&"}[i%5] + " :are supported by this server"},
 			{Op: "recv", Arg: ":me!u@h JOIN #Chan[1]"}, {Op: "recv", Arg: ":srv 353 me = #Chan[1] :me @Bob[a] +carl\\x d^e"}, {Op: "recv", Arg: ":me!u@h JOIN &loc~"}, {Op: "recv", Arg: ":srv 353 me = &loc~ :me Bob[a]"},
+			// members that arrive by JOIN (their own spelling, not the server's list), sorting before and after the existing ones
+			{Op: "recv", Arg: ":Zed!z@h JOIN #Chan[1]"}, {Op: "recv", Arg: ":Alice^!a@h JOIN #Chan[1]"}, {Op: "recv", Arg: ":[Xx]!x@h JOIN &loc~"}, {Op: "recv", Arg: ":Zed!z@h JOIN &loc~"},
 			{Op: "barrier"}, {Op: "lookups"}}}
 		res := c.RunSession(s)
 		if res.Crashed || res.Wedged || len(res.Panics) > 0 {
@@ -136,6 +138,15 @@ func lookupsOp(c *girc.Client, res *SessResult) {
 				p2, ok2 := uu.Perms.Lookup(ch)
 				chk("Perms.Lookup", fmt.Sprint(p1, ok1), fmt.Sprint(p2, ok2))
 			}
+		}
+	}
+	// membership seen from both sides, under the stored spellings
+	for _, ch := range c.Channels() {
+		for _, n := range ch.UserList {
+			chk("UserIn("+n+") for a name in "+ch.Name+".UserList", ch.UserIn(n), true)
+		}
+		for _, u := range c.Users() {
+			chk(ch.Name+".UserIn("+u.Nick+") agrees with the user's InChannel", ch.UserIn(u.Nick), u.InChannel(ch.Name))
 		}
 	}
 	for _, u := range c.UserList() {
